@@ -416,7 +416,13 @@ class Arith:
       return x * y
     if t is ast.Div:
       if k == "int":
-        raise Unsupported("int / int")
+        # Warp: int / int is C integer division (truncation toward zero)
+        q = z3.If(
+          y > 0,
+          z3.If(x >= 0, x / y, -((-x) / y)),
+          z3.If(x >= 0, -(x / (-y)), (-x) / (-y)),
+        )
+        return q
       return x / y
     if t is ast.FloorDiv:
       if k != "int":
@@ -446,7 +452,8 @@ class Arith:
         return a * b
       if t is ast.Div:
         if isinstance(a, int) and isinstance(b, int) and not isinstance(a, bool):
-          raise Unsupported("int / int")
+          q = abs(a) // abs(b)
+          return q if (a >= 0) == (b > 0) else -q
         return a / b
       if t is ast.FloorDiv:
         return a // b
@@ -572,6 +579,7 @@ class Frame:
 
 
 SOME = object()  # closure sentinel: "a non-None python object"
+SLICE_ALL = object()  # `:` in a matrix subscript
 
 
 class Exec:
@@ -762,6 +770,15 @@ class Exec:
   # --- value helpers
   def index_value(self, base, idx):
     """base[idx...] for Vec / tuple values"""
+    if isinstance(base, Vec) and len(base.shape) == 2 and len(idx) == 2 and (idx[0] is SLICE_ALL or idx[1] is SLICE_ALL):
+      rows, cols = base.shape
+      if idx[0] is SLICE_ALL and idx[1] is not SLICE_ALL:  # column
+        return Vec((rows,), [self.index_value(base, (r, idx[1])) for r in range(rows)], base.kind)
+      if idx[1] is SLICE_ALL and idx[0] is not SLICE_ALL:  # row
+        return self.index_value(base, (idx[0],))
+      return base
+    if any(i is SLICE_ALL for i in idx):
+      raise Unsupported("slice of non-matrix")
     if isinstance(base, Vec):
       if len(idx) == 1 and len(base.shape) == 2:
         r = idx[0]
@@ -789,6 +806,8 @@ class Exec:
       raise Unsupported("vector index arity")
     if isinstance(base, tuple):
       if len(idx) == 1 and is_conc(idx[0]):
+        if not (-len(base) <= idx[0] < len(base)):
+          raise Unsupported("tuple index out of range (e.g. shape[k] beyond the annotated ndim)")
         return base[idx[0]]
       raise Unsupported("symbolic tuple index")
     raise Unsupported(f"index into {type(base).__name__}")
@@ -824,8 +843,12 @@ class Exec:
       ns = enum_namespace()
       if hasattr(ns, name):
         return getattr(ns, name)
+      if "syncthreads" in name:
+        return Opaque("noop")
       raise Unsupported(f"unresolved name {name} in {module}")
     if r[0] == "func":
+      if r[1].kind == "native" and "syncthreads" in name:
+        return Opaque("noop")
       return FuncRef(r[1])
     if r[0] == "module":
       return ModRef(r[1])
@@ -843,6 +866,9 @@ class Exec:
       return TypeCtor(TStruct(r[2].name, r[1]))
     if r[0] == "assign":
       mod, expr = r[1], r[2]
+      ns = enum_namespace()
+      if mod == "types" and hasattr(ns, name):
+        return getattr(ns, name)
       # module-level constant or alias: evaluate concretely
       return self.eval_static_in_module(mod, expr)
     if r[0] == "extsymbol":
@@ -904,7 +930,9 @@ class Exec:
         if attr == "bool":
           return TypeCtor(T_BOOL)
         if attr == "inf":
-          raise Unsupported("wp.inf")
+          inf = z3.Real("wp.inf")
+          self.assume(inf >= z3.RealVal(10) ** 30)
+          return inf
         if attr == "pi" or attr == "PI":
           return self.pi()
         return Opaque("wp." + attr)
@@ -913,6 +941,8 @@ class Exec:
         if hasattr(ns, attr):
           return getattr(ns, attr)
       return self.resolve_global(base.name, attr)
+    if isinstance(base, RowView) and attr == "shape":
+      return tuple(self.shape_sym(base.base, d) for d in range(len(base.lead), base.base.ndim))
     if isinstance(base, ArrRef):
       if attr == "shape":
         return tuple(self.shape_sym(base, d) for d in range(base.ndim))
@@ -933,6 +963,8 @@ class Exec:
     if isinstance(base, pytypes.SimpleNamespace):
       return getattr(base, attr)
     if isinstance(base, Opaque) and base.what.startswith("extmodule:"):
+      if base.what == "extmodule:mujoco" and attr in CONSTS.get("mujoco_consts", {}):
+        return CONSTS["mujoco_consts"][attr]
       return Opaque(base.what + "." + attr)
     if isinstance(base, (int, float)) and attr == "value":
       return base
@@ -949,6 +981,8 @@ class Exec:
 
   def e_UnaryOp(self, e, fr):
     v = self.eval(e.operand, fr)
+    if isinstance(v, Opaque) and v.what == "tile":
+      return v
     if isinstance(e.op, ast.Not):
       b = tobool(v)
       return znot(b)
@@ -1001,7 +1035,7 @@ class Exec:
         else:
           raise Unsupported("is")
       elif isinstance(left, Vec) or isinstance(right, Vec):
-        if not (self.contract_mode and isinstance(left, Vec) and isinstance(right, Vec) and isinstance(op, (ast.Eq, ast.NotEq))):
+        if not (isinstance(left, Vec) and isinstance(right, Vec) and left.n == right.n and isinstance(op, (ast.Eq, ast.NotEq))):
           raise Unsupported("vector comparison")
         eq = zand(*[self.ar.compare(ast.Eq(), x, y) for x, y in zip(left.comps, right.comps)])
         res.append(eq if isinstance(op, ast.Eq) else znot(eq))
@@ -1024,6 +1058,8 @@ class Exec:
     return self.binop(e.op, a, b)
 
   def binop(self, op, a, b):
+    if (isinstance(a, Opaque) and a.what == "tile") or (isinstance(b, Opaque) and b.what == "tile"):
+      return Opaque("tile")
     if isinstance(a, Vec) or isinstance(b, Vec):
       return self.vec_binop(op, a, b)
     if isinstance(a, tuple) and isinstance(b, tuple) and isinstance(op, ast.Add):
@@ -1037,6 +1073,8 @@ class Exec:
       return self.matmul(a, b)
     if isinstance(a, Vec) and isinstance(b, Vec):
       if a.shape != b.shape:
+        if t is ast.Mult and (len(a.shape) == 2 or len(b.shape) == 2):
+          return self.matmul(a, b)  # Warp: mat * vec / vec * mat / mat * mat are products
         raise Unsupported("vector shape mismatch")
       if t in (ast.Add, ast.Sub):
         return Vec(a.shape, [A.binop(op, x, y) for x, y in zip(a.comps, b.comps)], a.kind, a.tag)
@@ -1044,7 +1082,23 @@ class Exec:
         if len(a.shape) == 2:
           return self.matmul(a, b)
         if a.tag in ("quat", "quatf") and b.tag in ("quat", "quatf"):
-          raise Unsupported("wp.quat * wp.quat")
+          # Warp's own quaternion product, layout (x, y, z, w)
+          m = lambda p, q: A.binop(ast.Mult(), p, q)
+          ad = lambda p, q: A.binop(ast.Add(), p, q)
+          sb = lambda p, q: A.binop(ast.Sub(), p, q)
+          ax, ay, az, aw = a.comps
+          bx, by, bz, bw = b.comps
+          return Vec(
+            (4,),
+            [
+              sb(ad(ad(m(aw, bx), m(ax, bw)), m(ay, bz)), m(az, by)),
+              ad(ad(sb(m(aw, by), m(ax, bz)), m(ay, bw)), m(az, bx)),
+              ad(sb(ad(m(aw, bz), m(ax, by)), m(ay, bx)), m(az, bw)),
+              sb(sb(sb(m(aw, bw), m(ax, bx)), m(ay, by)), m(az, bz)),
+            ],
+            "float",
+            a.tag,
+          )
         return Vec(a.shape, [A.binop(op, x, y) for x, y in zip(a.comps, b.comps)], a.kind)
       if t is ast.Div:
         return Vec(a.shape, [A.binop(op, x, y) for x, y in zip(a.comps, b.comps)], a.kind)
@@ -1097,6 +1151,8 @@ class Exec:
     idx = self._index_tuple(e.slice, fr)
     if isinstance(base, (ArrRef, RowView)):
       return self.arr_read(base, idx, fr, e.lineno)
+    if isinstance(base, Opaque) and base.what == "tile":
+      return self.fresh("tile_elem", "float")
     if isinstance(base, TypeCtor) or isinstance(base, Opaque):
       # wp.array[float] in annotations handled by parse_type; here: unsupported
       raise Unsupported("subscript of type")
@@ -1107,11 +1163,16 @@ class Exec:
     return self.index_value(base, idx)
 
   def _index_tuple(self, s, fr):
+    def one(x):
+      if isinstance(x, ast.Slice):
+        if x.lower is None and x.upper is None and x.step is None:
+          return SLICE_ALL
+        raise Unsupported("slice with bounds")
+      return self.eval(x, fr)
+
     if isinstance(s, ast.Tuple):
-      return tuple(self.eval(x, fr) for x in s.elts)
-    if isinstance(s, ast.Slice):
-      raise Unsupported("slice")
-    return (self.eval(s, fr),)
+      return tuple(one(x) for x in s.elts)
+    return (one(s),)
 
   # ------------------------------------------------------------------ calls
   def e_Call(self, e, fr):
@@ -1181,6 +1242,8 @@ class Exec:
       return self.call_func(callee, args, kw, fr, e)
     if isinstance(callee, Opaque):
       w = callee.what
+      if w == "noop":
+        return None
       if w.startswith("wp."):
         from . import builtins as B
 
@@ -1230,7 +1293,27 @@ class Exec:
         raise Unsupported(f"constructor {t.tag or t.shape} with {len(flat)} components")
       return Vec(t.shape, [self.cast(x, t.kind) for x in flat], t.kind, t.tag)
     if isinstance(t, TStruct):
-      return StructVal(t.name)
+      # Warp zero-initialises the fields of a freshly constructed struct
+      from .contracts import parse_type
+
+      sv = StructVal(t.name)
+      r = extract.resolve_symbol(t.module, t.name)
+      if r and r[0] == "class":
+        for fname, ann in extract.struct_fields(r[1], r[2]).items():
+          try:
+            ft = parse_type(ann, r[1])
+          except Unsupported:
+            continue
+          if isinstance(ft, TScalar):
+            sv.fields[fname] = {"int": 0, "float": 0.0, "bool": False}[ft.kind]
+          elif isinstance(ft, TVec):
+            sv.fields[fname] = Vec(ft.shape, [0.0 if ft.kind == "float" else 0] * _prod(ft.shape), ft.kind, ft.tag)
+          elif isinstance(ft, TArr):
+            ref = self.new_array(f"{t.name}.{fname}@null", ft.ndim, ft.elem)
+            for d in range(ft.ndim):
+              self.assume(self.shape_sym(ref, d) == 0)
+            sv.fields[fname] = ref
+      return sv
     raise Unsupported("constructor")
 
   def cast(self, v, kind):
@@ -1257,8 +1340,36 @@ class Exec:
       return v != 0
     raise Unsupported("cast")
 
+  def _overload_matches(self, info, args, kw):
+    params = info.node.args.args
+    nd = len(info.node.args.defaults)
+    if not (len(params) - nd <= len(args) + len(kw) <= len(params)):
+      return False
+    for a, v in zip(params, args):
+      if a.annotation is None:
+        continue
+      s = ast.unparse(a.annotation).split(".")[-1]
+      vt = vec_type_by_name(s)
+      if vt is not None:
+        if not isinstance(v, Vec) or tuple(v.shape) != tuple(vt.shape):
+          return False
+      elif s in ("int", "float", "bool", "int32", "float32"):
+        if isinstance(v, (Vec, ArrRef, RowView, StructVal)):
+          return False
+      elif s.startswith("array"):
+        if not isinstance(v, (ArrRef, RowView)):
+          return False
+    return True
+
   def call_func(self, fref, args, kw, fr, e):
     info = fref.info
+    if getattr(info, "overloads", None):
+      cands = [c for c in [info] + list(info.overloads) if self._overload_matches(c, args, kw)]
+      if len(cands) != 1:
+        raise Unsupported(f"overload resolution for {info.key}: {len(cands)} candidates")
+      if cands[0] is not info:
+        fref = FuncRef(cands[0], closure=fref.closure, defframe=fref.defframe)
+        info = cands[0]
     if info.kind == "native":
       raise Unsupported(f"native func {info.key}")
     if info.key in self.contracts:
@@ -1323,6 +1434,12 @@ class Exec:
 
   def s_Pass(self, s, fr):
     pass
+
+  def s_FunctionDef(self, s, fr):
+    info = fr.info.nested.get(s.name) if fr.info is not None else None
+    if info is None:
+      raise Unsupported(f"nested def {s.name}")
+    fr.env[s.name] = FuncRef(info, closure={}, defframe=fr)  # python closure: late binding
 
   def s_Expr(self, s, fr):
     if isinstance(s.value, ast.Constant):
